@@ -66,8 +66,12 @@ class HelloHashes(RecHashes):
 
 
 def hello_proxies():
+    from symx.shims import SymSet
     p = conn_proxies()
-    p += [(tc, "range", sym_range)]
+    p += [(tc, "range", sym_range),
+          (tc, "set", SymSet),
+          (tc, "TLS_1_3_FORBIDDEN_GROUPS",
+           SymSet(consts.TLS_1_3_FORBIDDEN_GROUPS))]
     return p
 
 
@@ -77,7 +81,8 @@ def fixed_random(n):
 
 def hello_stubs():
     return [(tc, "getRandomBytes", fixed_random),
-            (M, "getRandomBytes", fixed_random)]
+            (M, "getRandomBytes", fixed_random),
+            (tc, "HandshakeHashes", HelloHashes)]
 
 
 HELLO_ASSUMES = [
